@@ -129,6 +129,15 @@ Definition class_agree_fx (fuel : nat) (P : prog) (c : nat) : bool :=
 Definition callee_agree_fx (fuel : nat) (P : prog) (fr : frame) (k : callee) : bool :=
   match k with
   | KSuper | KFunc _ => true
+  | KSuperOf c =>
+      match fr_ctx fr with
+      | None => true
+      | Some (mro, idx) =>
+          match pos_from c mro 0 0, pos_from c mro 0 idx with
+          | Some a, Some b => Nat.eqb a b
+          | _, _ => false
+          end
+      end
   | KClass c => class_agree_fx fuel P c
   | KMeth m =>
       match fr_ctx fr with
@@ -166,7 +175,7 @@ Fixpoint klass_fx (fuel : nat) (P : prog) (fr : frame) : N :=
                   | Err _ => 9%N
                   | Ok None =>
                       match k, fr_mn fr with
-                      | KSuper, None | KClass _, _ =>
+                      | KSuper, None | KSuperOf _, None | KClass _, _ =>
                           if negb (forallb (fun n => mem_str n pre) pgs) then 1%N
                           else if Nat.eqb npos 0 && is_nil given then 0%N else 9%N
                       | _, _ => 9%N
